@@ -170,6 +170,10 @@ M = [
  dict(name="boxed_mul_by_value_widening", prop="C15", file="src/uint/boxed/mul.rs",
       old="    fn mul(self, rhs: BoxedUint) -> Self {\n        Mul::mul(&self, &rhs)", new="    fn mul(self, rhs: BoxedUint) -> Self {\n        BoxedUint::mul(&self, &rhs)",
       expect="c15.forest|Mul|uint::boxed::BoxedUint|uint::boxed::BoxedUint"),
+ dict(name="uint_from_le_slice_no_length_assert", prop="C16", file="src/uint/encoding.rs",
+      old="    pub const fn from_le_slice(bytes: &[u8]) -> Self {\n        assert!(\n            bytes.len() == Limb::BYTES * LIMBS,\n            \"bytes are not the expected size\"\n        );\n",
+      new="    pub const fn from_le_slice(bytes: &[u8]) -> Self {\n",
+      expect="c16.twins|uint::encoding::<impl uint::Uint<_>>::from_be_slice"),
  # --- C19
  dict(name="random_mod_core_polarity", prop="C19", file="src/uint/rand.rs",
       old="        if n.ct_lt(modulus).into() {\n            break;", new="        if !bool::from(n.ct_lt(modulus)) {\n            break;",
